@@ -32,7 +32,9 @@ def overlapping_in_flight(script, under):
     for i in range(len(msgs)):
         if msgs[i]["kind"] != "notif":
             continue
-        for j in range(i + 1, min(len(msgs), i + script["workers"] + 1)):
+        # the semaphore bounds how many are in flight, not how far apart they are: a slow writer of notification i is
+        # still running while any number of later ones start and finish, up to the next start / end marker (barrier)
+        for j in range(i + 1, len(msgs)):
             if msgs[j]["kind"] != "notif":
                 break
             if leaves_of(msgs[i], under) & leaves_of(msgs[j], under):
